@@ -213,6 +213,12 @@ pub(crate) fn read_tags_array(
         }
     }
 
+    // The section length, and every offset, count and string length in it, are u16
+    // fields (and are all bounded by the section length)
+    if outpos > u16::MAX as usize {
+        return Err(InnerError::JsonBad("Tags section too large", *inposp).into());
+    }
+
     // Write length of tags section
     put(output, 0, (outpos as u16).to_ne_bytes().as_slice())?;
 
@@ -398,23 +404,29 @@ pub(crate) fn burn_tag(input: &[u8], inposp: &mut usize) -> Result<(), Error> {
     Ok(())
 }
 
-pub(crate) fn burn_key_and_value(input: &[u8], inposp: &mut usize) -> Result<(), Error> {
-    verify_char(input, b'"', inposp)?;
-    burn_rest_of_key_and_value(input, inposp)
-}
-
 // from the character after the start quote of the key
 // ending on the character following the value
 pub(crate) fn burn_rest_of_key_and_value(input: &[u8], inposp: &mut usize) -> Result<(), Error> {
+    burn_rest_of_key_and_value_at(input, inposp, 0)
+}
+
+// Unused values are skipped recursively; this bounds the recursion (and the stack)
+const MAX_BURN_DEPTH: usize = 128;
+
+fn burn_rest_of_key_and_value_at(
+    input: &[u8],
+    inposp: &mut usize,
+    depth: usize,
+) -> Result<(), Error> {
     burn_string(input, inposp)?;
     eat_colon_with_whitespace(input, inposp)?;
-    burn_value(input, inposp)?;
+    burn_value_at(input, inposp, depth)?;
     Ok(())
 }
 
 // from the character after the open brace
 // ending on the character following the close brace
-pub(crate) fn burn_object(input: &[u8], inposp: &mut usize) -> Result<(), Error> {
+fn burn_object_at(input: &[u8], inposp: &mut usize, depth: usize) -> Result<(), Error> {
     loop {
         eat_whitespace_and_commas(input, inposp);
 
@@ -424,13 +436,18 @@ pub(crate) fn burn_object(input: &[u8], inposp: &mut usize) -> Result<(), Error>
             return Ok(());
         }
 
-        burn_key_and_value(input, inposp)?;
+        verify_char(input, b'"', inposp)?;
+        burn_rest_of_key_and_value_at(input, inposp, depth)?;
     }
 }
 
 // from the character after the open bracket
 // ending on the character following the close bracket
 pub(crate) fn burn_array(input: &[u8], inposp: &mut usize) -> Result<(), Error> {
+    burn_array_at(input, inposp, 0)
+}
+
+fn burn_array_at(input: &[u8], inposp: &mut usize, depth: usize) -> Result<(), Error> {
     loop {
         eat_whitespace_and_commas(input, inposp);
 
@@ -440,11 +457,14 @@ pub(crate) fn burn_array(input: &[u8], inposp: &mut usize) -> Result<(), Error> 
             return Ok(());
         }
 
-        burn_value(input, inposp)?;
+        burn_value_at(input, inposp, depth)?;
     }
 }
 
-pub(crate) fn burn_value(input: &[u8], inposp: &mut usize) -> Result<(), Error> {
+fn burn_value_at(input: &[u8], inposp: &mut usize, depth: usize) -> Result<(), Error> {
+    if depth > MAX_BURN_DEPTH {
+        return Err(InnerError::JsonBad("Unused JSON value nested too deeply", *inposp).into());
+    }
     if *inposp >= input.len() {
         return Err(InnerError::JsonBad("Too short burning an unused JSON value", *inposp).into());
     }
@@ -455,11 +475,11 @@ pub(crate) fn burn_value(input: &[u8], inposp: &mut usize) -> Result<(), Error> 
         }
         b'[' => {
             *inposp += 1;
-            burn_array(input, inposp)?
+            burn_array_at(input, inposp, depth + 1)?
         }
         b'{' => {
             *inposp += 1;
-            burn_object(input, inposp)?
+            burn_object_at(input, inposp, depth + 1)?
         }
         b't' => burn_true(input, inposp)?,
         b'f' => burn_false(input, inposp)?,
